@@ -369,3 +369,31 @@ Theorem C16_code_tie_model_step_interprets_the_events :
       end.
 Proof. exact register_is_the_interpretation. Qed.
 Print Assumptions C16_code_tie_model_step_interprets_the_events.
+
+(* ---------------------------------------------------------------------------------------------
+   A registered name is touched by messages only: the rns module runs nothing at block boundaries (read from the
+   current source on every run, translator/gen_blocks.go -> Gen/BlockRoutines.v), so "live for the term" is a
+   statement about the handlers the theorems above model. *)
+From JK Require Import Gen.BlockRoutines.
+Theorem C16_code_tie_no_block_routine_touches_names :
+  forall b e, In ("rns"%string, (b, e)) block_routines -> b = [] /\ e = [].
+Proof.
+  intros b e H. vm_compute in H.
+  repeat (destruct H as [H|H]; [try discriminate H; try (inversion H; subst; split; reflexivity)|]).
+  contradiction.
+Qed.
+Print Assumptions C16_code_tie_no_block_routine_touches_names.
+
+(* The wiring of in-place migrations, read from the current source: for every custom module, each version a migration
+   is registered from lies below the module's consensus version (a migration registered from the current version
+   never runs), and when migrations are registered at all one leads to the current version (a raised version
+   without a migration leaves what the previous binary stored as it was).  Names, bids and listings written by the
+   previous binary stay reachable only if a changed key or value format comes with a migration that runs. *)
+Definition migrations_wired (row : string * (nat * list nat)) : bool :=
+  let '(_, (cv, froms)) := row in
+  forallb (fun k => Nat.ltb k cv) froms &&
+  match froms with [] => true | _ => existsb (fun k => Nat.eqb (S k) cv) froms end.
+Theorem C16_code_tie_migrations_are_wired :
+  forall row, In row module_migrations -> migrations_wired row = true.
+Proof. apply Forall_forall. vm_compute. repeat constructor. Qed.
+Print Assumptions C16_code_tie_migrations_are_wired.
